@@ -604,6 +604,9 @@ class t2listing(object):
         if pt >= 2:
             nextpt = line.find('.', pt + 1)
             if nextpt < 0 : nextpt = len(line)
+            # the first value ends at the next blank (if there is one before the next value):
+            blankpos = line.find(' ', pt + 1)
+            if 0 <= blankpos < nextpt: nextpt = blankpos + 1
             s = line[pt + 1: nextpt - 1].lower()
             exponential = s.find('e') >= 0 or s.find('+') >= 0 or s.find('-') >= 0
             if exponential:
